@@ -32,7 +32,7 @@ type Report struct {
 	Extra       map[string]any
 	// CheckerBroken lists self-validation failures (a stored variant the rules no longer report).
 	CheckerBroken []string
-	start       time.Time
+	start         time.Time
 }
 
 func NewReport(prop, tier string) *Report {
